@@ -72,3 +72,20 @@ fn vfind_c13_vlan0_is_untagged() {
         assert_eq!(s1.len, 6);
     }
 }
+
+/// C12 / F3: after a shrinking announcement [A, B] -> [A] the dropped claim B disappears at once
+#[test]
+fn vfind_c12_shrinking_announcement_drops_claims() {
+    use crate::{table::ClaimTable, types::Range};
+    use std::str::FromStr;
+    MockTimeSource::set_time(1000);
+    let mut t = ClaimTable::<MockTimeSource>::new(10, 300);
+    let p: SocketAddr = "1.2.3.4:5".parse().unwrap();
+    let a = Range::from_str("10.0.1.0/24").unwrap();
+    let b = Range::from_str("10.0.2.0/24").unwrap();
+    t.set_claims(p, smallvec::smallvec![a, b]);
+    assert_eq!(t.claim_len(), 2);
+    t.set_claims(p, smallvec::smallvec![a]);
+    assert_eq!(t.claim_len(), 1, "withdrawn claim is still in the table");
+    assert_eq!(t.lookup(crate::types::Address::from_str("10.0.2.7").unwrap()), None);
+}
